@@ -148,8 +148,19 @@ def check(run, M, tier):
     for f in (f1, f2):
         vn = VN(M, f, call_hook=apod_hook, real=REAL)
         outs = vn.run(f.body, State())
-        betas = {T.show(o.env.get("beta"), 300) for o in outs if o.status == "return"}
-        ok = all(isinstance(o.env.get("beta"), T.Poly) and T.eq(o.env["beta"], want_beta) for o in outs if o.status == "return")
+        # the kernel parameter is whatever reaches interpolate / gridding as `param` (local names never matter)
+        found = []
+        for o in outs:
+            if o.status != "return":
+                continue
+            for a in T.apps(o.ret, "fn:sigpy.interp.interpolate") + T.apps(o.ret, "fn:sigpy.interp.gridding"):
+                for x in a[2]:
+                    v = T.dec(x)
+                    va = v.single_atom() if isinstance(v, T.Poly) else None
+                    if va is not None and va[0] == "app" and va[1] == "kw:param":
+                        found.append(T.dec(va[2][0]))
+        betas = {T.show(b_, 300) for b_ in found}
+        ok = bool(found) and all(isinstance(b_, T.Poly) and T.eq(b_, want_beta) for b_ in found)
         run.check(ok, "U3", f.name + " beta", f.loc(), "beta = pi*sqrt((W/sigma*(sigma - 1/2))^2 - 0.8)",
                   "%s uses beta = %s; Beatty's kernel parameter is pi*sqrt((W/sigma*(sigma-1/2))^2 - 0.8)" % (f.name, sorted(betas)), stmt="U3:beta:" + f.name)
     _cmp(run, M, "U2", "sigpy.fourier._get_oversamp_shape", REF_OS)
@@ -158,21 +169,23 @@ def check(run, M, tier):
         f = M.func(q)
         ka = summarize(M, f)
         kb = summarize(M, f, stmts=ast.parse(ref_src.strip()).body)
-        sa = [(s.array, T.enc(s.idx), s.op, T.enc(s.value)) for s in ka.stores]
-        sb = [(s.array, T.enc(s.idx), s.op, T.enc(s.value)) for s in kb.stores]
+        sa = [(ka.canon(s.array), T.enc(s.idx), s.op, T.enc(s.value)) for s in ka.stores]
+        sb = [(kb.canon(s.array), T.enc(s.idx), s.op, T.enc(s.value)) for s in kb.stores]
         la = [tuple(T.enc(a) for a in l.args) for l in ka.loops]
         lb = [tuple(T.enc(a) for a in l.args) for l in kb.loops]
-        oa, ob = ka.env.get("output"), kb.env.get("output")
-        same_out = (oa is None and ob is None) or (isinstance(oa, T.Poly) and isinstance(ob, T.Poly) and T.eq(oa, ob))
-        ra = [unparse(n.value) for n in ast.walk(f.node) if isinstance(n, ast.Return)]
-        run.check(sa == sb and la == lb and same_out and ra == ["output"], rule, q, f.loc(), "loop over the last ndim axes with the documented per-axis factors",
+        oa, ob = ka.ret, kb.ret   # the returned value (local names never matter)
+        same_out = isinstance(oa, T.Poly) and isinstance(ob, T.Poly) and T.eq(oa, ob)
+        run.check(sa == sb and la == lb and same_out, rule, q, f.loc(), "loop over the last ndim axes with the documented per-axis factors",
                   "%s deviates from its documented form: stores %s ; output %s ; documented stores %s ; output %s"
                   % (q, [(s.array, s.op, T.show(s.value, 200) if isinstance(s.value, T.Poly) else s.value) for s in ka.stores], T.show(oa, 400) if isinstance(oa, T.Poly) else oa,
                      [(s.array, s.op, T.show(s.value, 200) if isinstance(s.value, T.Poly) else s.value) for s in kb.stores], T.show(ob, 400) if isinstance(ob, T.Poly) else ob),
                   stmt="%s:%s" % (rule, q))
     # in-place contract of _apodize: it must scale the array it is given (output = input alias), which the callers rely on
     fa = M.func("sigpy.fourier._apodize")
-    al = [n for n in fa.body if isinstance(n, ast.Assign) and unparse(n) == "output = input"]
-    run.check(len(al) == 1, "U1", "_apodize in-place contract", fa.loc(), "_apodize works on the caller's buffer (callers pass a private copy)",
+    buf = fa.params[0]
+    aliases = {buf} | {n.targets[0].id for n in ast.walk(fa.node) if isinstance(n, ast.Assign) and len(n.targets) == 1 and isinstance(n.targets[0], ast.Name)
+                       and isinstance(n.value, ast.Name) and n.value.id == buf}
+    al = [n for n in ast.walk(fa.node) if isinstance(n, ast.AugAssign) and isinstance(n.op, ast.Mult) and isinstance(n.target, ast.Name) and n.target.id in aliases]
+    run.check(len(al) >= 1, "U1", "_apodize in-place contract", fa.loc(), "_apodize works on the caller's buffer (callers pass a private copy)",
               "_apodize no longer scales the array it is given in place, but nufft/nufft_adjoint discard its return value", stmt="U1:apod-inplace")
     _cmp(run, M, "U4", "sigpy.fourier.toeplitz_psf", REF_PSF, loop_hook=havoc_loop)
